@@ -738,8 +738,10 @@ class Engine:
             if c.requires:
                 try:
                     asgs += self._solver_samples(c, cfg, specs, n, rng)
-                except (Unsupported, PyRaise, z3.Z3Exception):
-                    pass
+                except Exception as e:
+                    self.cross['skipped'].append(
+                        'solver-guided samples for %s: %s: %s'
+                        % (c.name, type(e).__name__, str(e)[:100]))
         clauses = [t for (_l, t) in c.ensures]
         jobs = [self.job_for(c, specs, a, clauses) for a in asgs]
         self.pending_cross.append((c, cfg, specs, paths, asgs, jobs))
@@ -840,6 +842,15 @@ class Engine:
                     if v is False:
                         self.native_clause_failures.append(
                             (c, cfg, specs, lb, text, a, r))
+            elif not paths and isinstance(c, Contract) and \
+                    str(r.get('outcome', '')).startswith('raise:'):
+                # bounded stand-in only: an exception the contract does not
+                # allow under its precondition
+                exc = r['outcome'].split(':', 1)[1]
+                if exc not in c.raises and exc not in c.may_raise:
+                    self.native_clause_failures.append(
+                        (c, cfg, specs, 'no-unlisted-exception',
+                         'outcome == "return"', a, r))
             envn = {}
             for k, v in a.items():
                 if isinstance(v, list):
